@@ -74,11 +74,20 @@ def s_canon(v):
     walk_perm = PERMS3[v.choice('walk_perm', 6)]
     ent_perm = PERMS3[v.choice('ent_perm', 6)]
     sub_perm = PERMS3[v.choice('sub_perm', 6)]
+    c.rename = v.bool('rename')
     (a_size, a_dig) = v.filetoken('a_size', 'a_dig')
     ea_size, ea_dig = v.size('ea_size'), v.dig('ea_dig')
+    if c.rename:
+        # the real dump() renders text in these runs: keep every value concrete
+        a_size, a_dig, ea_size, ea_dig = 3, 'A', 4, 'Z'
     b_listed = v.bool('b_listed')
     for variant in (0, 1):
         fs = ModelFS(written_sizes=[7, 8, 9])
+        # with `rename` the real dump() runs (it owns the sorting), the sub-Manifest
+        # crosses the compression watermark and is saved a second time under a new name
+        fs.render = c.rename
+        if c.rename:
+            fs.size_of = {posixpath.join('/r', 'sub/Manifest'): 500}
         wp = walk_perm if variant else (0, 1, 2)
         ep = ent_perm if variant else (0, 1, 2)
         sp = sub_perm if variant else (0, 1, 2)
@@ -112,8 +121,9 @@ def s_canon(v):
 
 
 def run_canon(c):
-    o1 = tree.run_update(c.fs, 'Manifest', '', ('MD5',), True, False)
-    o2 = tree.run_update(c.fs2, 'Manifest', '', ('MD5',), True, False)
+    kw = {'compress_watermark': 128} if c.rename else None
+    o1 = tree.run_update(c.fs, 'Manifest', '', ('MD5',), True, False, save_kw=kw)
+    o2 = tree.run_update(c.fs2, 'Manifest', '', ('MD5',), True, False, save_kw=kw)
     return (o1, o2)
 
 
@@ -132,6 +142,10 @@ def judge_canon(c, out):
                 continue        # digests of rewritten Manifests are fresh tokens per world
             if not same_entry(x, y):
                 return False, True
+        # sorting requested: what is on disk is sorted
+        keys = [(e.tag, getattr(e, 'path', '')) for e in a]
+        if keys != sorted(keys):
+            return False, True
     return True, True
 
 
@@ -217,18 +231,22 @@ def conditions(tier):
                   'nothing', bounds='C03 S-nest; force off'
                   + ('' if full else '; whole-tree update; link not stale')))
     # (b) canonical form
-    for fx in partitions([('walk_perm', range(6)), ('ent_perm', range(6) if full
-                                                    else (1, 3, 5))]):
-        nm = f'canon_w{fx["walk_perm"]}_e{fx["ent_perm"]}'
+    for fx in partitions([('rename', (False, True)), ('walk_perm', range(6)),
+                          ('ent_perm', range(6) if full else (1, 3, 5))]):
+        if fx['rename'] and not full and fx['walk_perm'] not in (0, 3, 5):
+            continue
+        nm = f'canon_r{int(fx["rename"])}_w{fx["walk_perm"]}_e{fx["ent_perm"]}'
         cs.append(make_cond(
             nm, s_canon, run_canon, judge_canon, fx, timeout=400, group='M-canon',
-            real=False, twin=(fx['walk_perm'] == 5),
+            real=False, twin=(fx['walk_perm'] == 5 and not fx['rename']),
             descr='two replicas of one tree that differ only in the order the walk returns '
                   'names and in the order of prior entries; update+save with sort=True; '
                   'written entry sequences must be identical',
             bounds='3 names per directory (all 6 walk orders x 6 prior entry orders x 6 '
-                   'sub-directory orders), file a and its entry symbolic, optional extra '
-                   'entry at different positions, one Manifest per directory'))
+                   'sub-directory orders), optional extra entry at different positions, one '
+                   'Manifest per directory; rename=0: file a and its entry symbolic; '
+                   'rename=1: all values concrete, the real dump() renders, watermark 128 '
+                   'makes the sub-Manifest change its name within the save'))
     cs.append(Cond('k_dump_sorted', k_dump_sorted, k_dump_pre, timeout=200, group='K',
                    descr='real ManifestFile.dump(sort=True) on any permutation of 4 entries '
                          'with distinct (tag,path) (+ optional IGNORE at any position) '
